@@ -21,6 +21,13 @@ type Engine struct {
 	entryValueNames []string
 	ghostFuncs      map[string]func(x *Exec, st *State, e *ast.CallExpr) []Val
 	compSorts       map[string]Sort
+	compElem        map[string]compInfo // integer-typed heap components seen so far (for range axioms)
+}
+
+type compInfo struct {
+	elem     types.Type
+	sort     Sort
+	twoLevel bool
 }
 
 type FuncResult struct {
@@ -37,7 +44,7 @@ type FuncResult struct {
 }
 
 func newEngine(p *Program) *Engine {
-	e := &Engine{prog: p, embIdx: map[string]int64{}, strLits: map[string]bool{}, strLitVals: map[string]string{}, compSorts: map[string]Sort{}}
+	e := &Engine{prog: p, embIdx: map[string]int64{}, strLits: map[string]bool{}, strLitVals: map[string]string{}, compSorts: map[string]Sort{}, compElem: map[string]compInfo{}}
 	e.ghostFuncs = map[string]func(x *Exec, st *State, e *ast.CallExpr) []Val{
 		"ghostSpawned": func(x *Exec, st *State, e *ast.CallExpr) []Val {
 			t := x.heapGet(st, "ghost.spawned", SInt)
@@ -347,21 +354,29 @@ func verifyVariant(p *Program, con *Contract, choice []enumChoice, mode string, 
 			x.runGhost(final, g)
 		}
 	}
+	cut := final.clone()
+	var cutFacts []*Term
 	for _, en := range con.Ensures {
 		if en.hasTag("assumed") {
 			// clause about ghost/abstract state that the body cannot establish: used at call sites only
 			x.assumed[fmt.Sprintf("clause %s of %s is assumed (abstract view of a component): %s", en.Name, con.Key, en.Text)] = true
 			continue
 		}
-		for _, p := range x.clauseParts(final, en, nil) {
+		for _, p := range x.clauseParts(cut, en, nil) {
 			name := fmt.Sprintf("%s/%s%s", con.Key, en.Name, p.suffix)
-			x.oblige(final, name, "ensures", en.Text, p.t)
+			x.oblige(cut, name, "ensures", en.Text, p.t)
 			if o := x.obls[len(x.obls)-1]; o.Status == "" {
 				// path split conditions for the unknown case: the reach conditions of the return sites
 				for _, r := range live {
 					o.Split = append(o.Split, r.reach)
 				}
 			}
+			// sequential cut: later postconditions may use the earlier ones (each is its own
+			// obligation); tried only if the obligation is not discharged without them
+			if o := x.obls[len(x.obls)-1]; o.Status == "" {
+				o.Cut = append([]*Term{}, cutFacts...)
+			}
+			cutFacts = append(cutFacts, p.t)
 		}
 	}
 	x.frameObligations(entry, final, alloc0)
@@ -505,6 +520,9 @@ func (x *Exec) frameObligations(entry, final *State, alloc0 *Term) {
 			// semantic freshness: the root object of the written address was not allocated at entry
 			alts := []*Term{c.Ge(embRoot(w.idx), alloc0)}
 			for _, l := range locs {
+				if l.key != nil {
+					continue // single entries of a two-level component are not accepted by this (syntactic) check
+				}
 				alts = append(alts, c.Eq(w.idx, l.ref))
 			}
 			goals = append(goals, c.Implies(w.cond, c.Or(alts...)))
